@@ -71,6 +71,60 @@ ASSUME ndJsonSerialize("cover.ndjson", SetToSeq(Cover))
 ASSUME ndJsonSerialize("full.ndjson", SetToSeq(FullAdm))
 ASSUME PrintT(<<"COUNTS", Cardinality(Quick), Cardinality(Cover), Cardinality(FullAdm)>>)
 
+(***************************************************************************)
+(* Unified-device runs at the share boundaries of distributeWGToGPUs       *)
+(* (Config.BoundaryCounts): for every platform kind the work-group counts  *)
+(* k*share-1, k*share, k*share+1 derived from its CU count, realised by    *)
+(* the one-dimensional workloads whose work-group count is a function of   *)
+(* the size.  BoundaryQuick keeps every (platform, n, count) with one      *)
+(* workload in rotation; stock timing platforms only around the first      *)
+(* boundary on two GPUs (they are expensive to build).                     *)
+(***************************************************************************)
+BPlatforms == {[mode |-> "emu", gpu |-> "none", cus |-> 0, sas |-> 0],
+               [mode |-> "timing", gpu |-> "r9nano", cus |-> 1, sas |-> 2],
+               [mode |-> "timing", gpu |-> "mi300a", cus |-> 1, sas |-> 2],
+               [mode |-> "timing", gpu |-> "r9nano", cus |-> 0, sas |-> 0],
+               [mode |-> "timing", gpu |-> "mi300a", cus |-> 0, sas |-> 0]}
+BCU(pl) == CUPerGPU(pl.mode, pl.gpu, pl.cus, pl.sas)
+BArchs(w, pl) == IF pl.gpu = "r9nano" THEN Archs(w) \cap {"gcn3"}
+                 ELSE IF pl.gpu = "mi300a" THEN Archs(w) \cap {"cdna3"}
+                 ELSE Archs(w)
+BClass(pl, a, n) == [mode |-> pl.mode, gpu |-> pl.gpu, arch |-> a, n |-> n, dist |-> "unified", umem |-> 0]
+BCounts(pl, n) == IF pl.mode = "timing" /\ pl.cus = 0
+                  THEN {t \in BoundaryCounts(n, BCU(pl)) : n = 2 /\ t <= BCU(pl) + 1 /\ t >= BCU(pl) - 1}
+                  ELSE BoundaryCounts(n, BCU(pl))
+BCase(w, a, pl, n, t) ==
+  [w |-> w, names |-> Names[w], p |-> SizeWithWG(w, t), c |-> BClass(pl, a, n),
+   knobs |-> IF pl.cus > 0 THEN "cus=1,sas=2" ELSE "", cu |-> BCU(pl), wgs |-> t,
+   last_gpu_share |-> ShareOf(n, BCU(pl), t, n), boundary |-> TRUE]
+BWorkloadSeq == <<"aes", "fir", "relu", "vectoradd">>
+BoundaryAll ==
+  UNION {UNION {UNION {{BCase(w, a, pl, n, t) : t \in {u \in BCounts(pl, n) : Adm(w, SizeWithWG(w, u), BClass(pl, a, n), Scope)}}
+                        : a \in BArchs(w, pl)} : n \in {2, 4}} : w \in BoundaryWorkloads, pl \in BPlatforms}
+\* one workload per (platform, architecture family, n, count), in rotation
+BEligible(pl, n, t) == {k \in BoundaryAll : k.c.mode = pl.mode /\ k.c.gpu = pl.gpu /\ k.cu = BCU(pl) /\ k.c.n = n /\ k.wgs = t
+                                               \* the quick tier realises large counts with the workloads that have 64 elements per work-group
+                                               /\ (t > 129 => k.w \in {"relu", "vectoradd"})}
+BKey(k) == (CHOOSE i \in 1..4 : BWorkloadSeq[i] = k.w) * 2 + (IF k.c.arch = "gcn3" THEN 0 ELSE 1)
+BPick(S, r) == CHOOSE k \in S : Cardinality({j \in S : BKey(j) < BKey(k)}) = r % Cardinality(S)
+BoundaryQuick ==
+  UNION {UNION {{BPick(BEligible(pl, n, t), t + n + Rot) : t \in {u \in BCounts(pl, n) : BEligible(pl, n, u) # {}}}
+                : n \in {2, 4}} : pl \in BPlatforms}
+
+ASSUME SeqSet(BWorkloadSeq) = BoundaryWorkloads
+ASSUME BoundaryQuick \subseteq BoundaryAll
+\* every boundary count of every platform kind is run in the quick tier, in particular the counts at which the last
+\* work-group is alone on its GPU
+ASSUME \A pl \in BPlatforms, n \in {2, 4} : \A t \in BCounts(pl, n) :
+          BEligible(pl, n, t) # {} => \E k \in BoundaryQuick : k.cu = BCU(pl) /\ k.c.mode = pl.mode /\ k.c.n = n /\ k.wgs = t
+ASSUME \E k \in BoundaryQuick : k.c.mode = "emu" /\ k.c.n = 2 /\ k.wgs = 65 /\ k.last_gpu_share = 1
+ASSUME \E k \in BoundaryQuick : k.c.mode = "emu" /\ k.c.n = 4 /\ k.wgs = 193 /\ k.last_gpu_share = 1
+ASSUME \E k \in BoundaryQuick : k.c.mode = "emu" /\ k.c.n = 2 /\ k.wgs = 64 /\ k.last_gpu_share = 0
+
+ASSUME ndJsonSerialize("boundary_quick.ndjson", SetToSeq(BoundaryQuick))
+ASSUME ndJsonSerialize("boundary_all.ndjson", SetToSeq(BoundaryAll))
+ASSUME PrintT(<<"BOUNDARY", Cardinality(BoundaryQuick), Cardinality(BoundaryAll)>>)
+
 Init == x = 0
 Next == UNCHANGED x
 =============================================================================
